@@ -41,6 +41,9 @@ type deadConn struct {
 	hs       time.Duration // -1 = never
 	fail     bool
 	ready    time.Time
+	hs2      time.Duration // > 0: only the first part of the response is readable at `ready`, the rest hs2 later
+	ready2   time.Time
+	part1    int // bytes of the response readable before ready2
 	resp     []byte
 	req      []byte
 	onFinal  func() // called right before the last response bytes are handed out
@@ -70,11 +73,19 @@ func (c *deadConn) Write(p []byte) (int, error) {
 		c.wrote = true
 		if c.hs >= 0 {
 			c.ready = time.Now().Add(c.hs)
+			if c.hs2 > 0 {
+				c.ready2 = c.ready.Add(c.hs2)
+			}
 		}
 		if c.fail {
 			c.resp = []byte("HTTP/1.1 400 Bad Request\r\n\r\n")
 		} else {
 			c.resp = []byte("HTTP/1.1 101 Switching Protocols\r\nUpgrade: websocket\r\nConnection: Upgrade\r\nSec-WebSocket-Accept: " + string(acceptFor(keyOf(c.req))) + "\r\n\r\n")
+		}
+		// the first part ends in the middle of a header line ("...Upgrade: websocket\r\nConnec")
+		c.part1 = len("HTTP/1.1 101 Switching Protocols\r\nUpgrade: websocket\r\nConnec")
+		if c.part1 > len(c.resp) {
+			c.part1 = len(c.resp) / 2
 		}
 	}
 	return len(p), nil
@@ -98,7 +109,28 @@ func (c *deadConn) Read(p []byte) (int, error) {
 				c.mu.Unlock()
 				return 0, io.EOF
 			}
-			n := copy(p, c.resp)
+			avail := c.resp
+			if !c.ready2.IsZero() && now.Before(c.ready2) {
+				// only what is left of the first part
+				if c.part1 <= 0 {
+					// wait for the second part, the deadline or a state change
+					wait := c.ready2.Sub(now)
+					if !c.deadline.IsZero() && c.deadline.Sub(now) < wait {
+						wait = c.deadline.Sub(now)
+					}
+					ch := c.cond
+					c.calls--
+					c.mu.Unlock()
+					select {
+					case <-ch:
+					case <-time.After(wait):
+					}
+					continue
+				}
+				avail = c.resp[:c.part1]
+			}
+			n := copy(p, avail)
+			c.part1 -= n
 			c.resp = c.resp[n:]
 			f := c.onFinal
 			last := len(c.resp) == 0
@@ -164,11 +196,49 @@ func parseU(s string) time.Duration {
 }
 
 func init() {
+	// the timeline is real time: when the machine is too busy to keep instants 40 ms apart in order, the
+	// observation says nothing about the library. A probe goroutine measures the scheduling delay while
+	// the case runs; a disturbed run is repeated, and given up (SKIP:timing) after three disturbed runs.
 	ops["dialc"] = func(a []string) string {
+		for attempt := 0; attempt < 3; attempt++ {
+			stop := make(chan struct{})
+			worst := make(chan time.Duration, 1)
+			go func() {
+				var w time.Duration
+				for {
+					t0 := time.Now()
+					select {
+					case <-stop:
+						worst <- w
+						return
+					case <-time.After(2 * time.Millisecond):
+					}
+					if d := time.Since(t0) - 2*time.Millisecond; d > w {
+						w = d
+					}
+				}
+			}()
+			res := dialcOnce(a)
+			close(stop)
+			if <-worst < unit/4 {
+				return res
+			}
+		}
+		return "SKIP:timing-disturbed"
+	}
+	register("C20", genC20)
+}
+
+func dialcOnce(a []string) string {
+	{
 		bg := a[0] == "1"
 		timeout := parseU(a[1])
-		dialDur, hsDur := parseU(a[3]), parseU(a[4])
+		hsF := strings.Split(a[4], "+")
+		dialDur, hsDur := parseU(a[3]), parseU(hsF[0])
 		conn := newDeadConn(hsDur, a[5] == "1")
+		if len(hsF) > 1 {
+			conn.hs2 = parseU(hsF[1])
+		}
 		connected := false
 		d := ws.Dialer{
 			Timeout: timeout,
@@ -283,7 +353,6 @@ func init() {
 		}
 		return fmt.Sprintf("err=%s connected=%d closed=%d dl=%s late=%d hung=0 leak=%d touched=%d", cls, b2i(connected), b2i(closed), dl, late, leak, touched)
 	}
-	register("C20", genC20)
 }
 
 func genC20(tier string, r *rng) {
@@ -325,6 +394,15 @@ func genC20(tier string, r *rng) {
 		if coincide(k.timeout, k.ctx, k.dial, k.hs) {
 			continue
 		}
+		run(fmt.Sprintf("dialc %s %s %s %s %s %s", k.bg, k.timeout, k.ctx, k.dial, k.hs, k.fail))
+	}
+	// the response arrives in two parts, the first ending in the middle of a header line; the context ends /
+	// the timeout fires during the stall between them (or not at all)
+	for _, k := range []c{
+		{"0", "0", "cancel:2", "0", "1+3", "0"}, {"0", "0", "deadline:2", "0", "1+3", "0"}, {"0", "2", "none", "0", "1+3", "0"},
+		{"1", "2", "none", "0", "1+3", "0"}, {"0", "7", "cancel:3", "1", "1+3", "0"}, {"0", "3", "cancel:6", "0", "1+4", "0"},
+		{"0", "7", "none", "0", "1+3", "0"}, {"1", "0", "none", "0", "1+2", "0"}, {"0", "0", "cancel:6", "0", "1+2", "0"},
+	} {
 		run(fmt.Sprintf("dialc %s %s %s %s %s %s", k.bg, k.timeout, k.ctx, k.dial, k.hs, k.fail))
 	}
 	// forced order 'handshake finished, then poisoned, then done()'
